@@ -5,7 +5,7 @@ for spec in "$@"; do
   for k in ${ks//,/ }; do
     d=/tmp/seed-out/${id}${SUF:-r2}/$k; [ -f "$d/patch.diff" ] || continue
     n=$(ls -d /verif/seeded/$id-* 2>/dev/null | sed "s/.*-//" | sort -n | tail -1); n=$((${n:-0}+1)); dst=/verif/seeded/$id-$n
-    mkdir -p $dst; cp $d/patch.diff $d/demo_test.go $d/meta.json $dst/
+    mkdir -p $dst; cp $d/patch.diff $d/demo_test.go $d/meta.json $dst/; cp $d/suite*.log $dst/ 2>/dev/null
     pkg=$(python3 -c "import json;print(json.load(open('$dst/meta.json')).get('demo_pkg_dir',''))")
     rx=$(python3 -c "import json;print(json.load(open('$dst/meta.json')).get('demo_run','TestDemo'))")
     /verif/scripts/confirm_seeded.sh $dst $pkg "$rx" 15m
